@@ -140,6 +140,8 @@ def plan_text(runs):
         for o in ops:
             if "cfg" in o:
                 out.append("CFG %d %d %d %d %d" % tuple(o["cfg"]))
+            elif "rep" in o:
+                out.append("REP %s %d %d %d" % (o["name"], o["seed"], o["rep"], o["vary"]))
             else:
                 out.append("OP %s %d %d %d %d %s %d %d %d" % (o["name"], o["seed"], o["p0"], o["p1"], o["slot"], o["fault"], o["fa"], o["fb"], o.get("vc", -1)))
         out.append("END")
@@ -181,7 +183,16 @@ def classify_death(rc, stderr):
     return "exit:%s" % rc, s
 
 
-def run_worker(exe, runs, valgrind=False):
+WORKER_ENV = {"LC_ALL": "C"}     # default: the classic locale, whatever the caller's shell exports
+
+
+def worker_env(extra=None):
+    env = {k: v for k, v in os.environ.items() if not (k.startswith("LC_") or k in ("LANG", "LANGUAGE"))}
+    env.update(extra if extra is not None else WORKER_ENV)
+    return env
+
+
+def run_worker(exe, runs, valgrind=False, env=None):
     """executes runs in one worker process, restarting after a death.  returns (events, stats)
     events: list of dict(run, op, kind='V'|'crash'|'terminate', cls, detail, fault)"""
     events = []
@@ -194,7 +205,7 @@ def run_worker(exe, runs, valgrind=False):
         cmd = [exe]
         if valgrind:
             cmd = ["valgrind", "-q", "--error-exitcode=79", "--track-origins=no", "--exit-on-first-error=yes", exe]
-        rc, out, err = run(cmd, stdin=text.encode(), timeout=WORKER_TIMEOUT)
+        rc, out, err = run(cmd, stdin=text.encode(), timeout=WORKER_TIMEOUT, env=worker_env(env))
         out = out.decode(errors="replace")
         err = err.decode(errors="replace")
         inflight = None
@@ -274,11 +285,11 @@ def run_fresh(exe, runs, jobs=None):
     return events, stats, results
 
 
-def run_parallel(exe, runs, jobs=None, valgrind=False):
+def run_parallel(exe, runs, jobs=None, valgrind=False, env=None):
     jobs = jobs or common.NCPU
     shards = [runs[i::jobs] for i in range(jobs)]
     shards = [s for s in shards if s]
-    outs = pmap(lambda s: run_worker(exe, s, valgrind), shards, jobs)
+    outs = pmap(lambda s: run_worker(exe, s, valgrind, env), shards, jobs)
     events, stats, results = [], {}, {}
     for ev, st, rs in outs:
         events += ev
@@ -324,10 +335,17 @@ def gen_value_classes(h, rng):
     return ops
 
 
-def gen_sweeps(h, cat):
+def gen_sweeps(h, cat, thorough=False, rng=None):
     """exhaustive sweeps through explicit selectors: every enumerator through every table, every
-    spelling literal, every numeric-grammar string"""
+    spelling literal, every numeric-grammar string, every byte string of length <= 1 (<= 2 in the
+    thorough tier; a seeded sample of the two-byte strings in quick) through every parser"""
     ops = []
+    rng = rng or Rng(12345)
+    short_ops = sorted(n for n in h.ops if n.endswith("(short)"))
+    for n in short_ops:
+        idxs = list(range(65793)) if thorough else list(range(257)) + [257 + rng.below(65536) for _ in range(1200)]
+        for i in idxs:
+            ops.append(op(n, i, i, -1))
 
     def add(name, p0, p1=-1, seed=1, fault="none"):
         if name in h.ops:
@@ -395,6 +413,26 @@ def gen_cold(h, rng, nplans, alloc_counts=None):
     return plans
 
 
+def gen_endurance(h, rng, thorough):
+    """one op repeated many times in one process, with the same operands and with fresh operands every time"""
+    names = sorted(h.ops)
+    central = [n for n in names if n.startswith("Base|")] + [n for n in names if re.match(r"^(Unit::Time|Unit::Length|UnitSystem)\|", n)] + \
+              [n for n in names if re.match(r"^Unit::(Time|MemoryRate)<d>\|Convert", n)] + \
+              [n for n in names if re.match(r"^(Time|Length|Velocity|Stress)<d>\|(Print|JSON|XML|YAML|Value)\(", n)]
+    plans = []
+    big = 66000     # beyond any 16-bit counter
+    hot = [n for n in central if re.search(r"^Base\|(Print<d>|ParseNumber<d>\(number-like\)|SnakeCase|Lowercase)|^Unit::Time\||^UnitSystem\|Abbreviation|"
+                                           r"^Unit::Time<d>\|Convert(InPlace)?\((scalar|vector)\)|^(Time|Velocity)<d>\|(Print|JSON)\(|^Dimensions\|JSON", n)]
+    for n in central:
+        reps = big if (thorough or n in hot) else 1500
+        plans.append([{"name": n, "seed": rng.u64(), "rep": reps, "vary": 0}])
+        plans.append([{"name": n, "seed": rng.u64(), "rep": reps, "vary": 0x9E3779B97F4A7C15}])
+    sample = rng.sample(names, 2000 if thorough else 300)
+    for n in sample:
+        plans.append([{"name": n, "seed": rng.u64(), "rep": 300, "vary": 0}, {"name": n, "seed": rng.u64(), "rep": 300, "vary": 0x9E3779B97F4A7C15}])
+    return plans
+
+
 def gen_history(h, rng, nplans, maxops=40):
     """swarm-style plans: each run enables a random subset of op families and fault kinds; stream
     slots persist across the ops of a run, so earlier sink faults and state bits shape later calls"""
@@ -454,8 +492,8 @@ def vkey(ev, ops_of_run):
     return (cls, family(name))
 
 
-def reproduces(exe, plan_ops, want_cls, want_name, valgrind=False):
-    ev, st, rs = run_worker(exe, [(0, plan_ops)], valgrind)
+def reproduces(exe, plan_ops, want_cls, want_name, valgrind=False, env=None):
+    ev, st, rs = run_worker(exe, [(0, plan_ops)], valgrind, env)
     for e in ev:
         if e["cls"] == want_cls and 0 <= e["op"] < len(plan_ops) and plan_ops[e["op"]].get("name") == want_name:
             return e
@@ -465,6 +503,8 @@ def reproduces(exe, plan_ops, want_cls, want_name, valgrind=False):
 def precise_fault(o, ev):
     """turn an enumerating fault into the single fault position the worker reported"""
     o = dict(o)
+    if "rep" in o:
+        return o
     f = ev.get("fault", "")
     m = re.match(r"^(alloc|allocfrom):(\d+)$", f)
     if m:
@@ -481,7 +521,7 @@ def precise_fault(o, ev):
     return o
 
 
-def minimise(exe, run_ops, ev, valgrind=False, budget=120):
+def minimise(exe, run_ops, ev, valgrind=False, budget=120, env=None):
     target = run_ops[ev["op"]]
     name = target["name"]
     cls = ev["cls"]
@@ -491,8 +531,10 @@ def minimise(exe, run_ops, ev, valgrind=False, budget=120):
 
     def fails(sub_prefix, tgt):
         used[0] += 1
-        return reproduces(exe, list(sub_prefix) + [tgt], cls, name, valgrind) is not None
+        return reproduces(exe, list(sub_prefix) + [tgt], cls, name, valgrind, env) is not None
     tgt = target
+    if "rep" in target:
+        return (list(prefix) + [target] if not fails([], target) else [target]), used[0]
     if cand_target != target and fails(prefix, cand_target):
         tgt = cand_target
     if tgt["fault"] != "none":
@@ -528,6 +570,7 @@ def write_replay(seed, n, build, plan_ops, ev, name):
     with open(path, "w", encoding="utf-8") as f:
         json.dump({"property": PROP, "seed": seed, "build": build,
                    "violation": {"class": ev["cls"], "op": name, "fault": ev.get("fault"), "detail": ev.get("detail", "")[-1200:]},
+                   "environment": ev.get("env") if ev.get("env") is not None else WORKER_ENV,
                    "plan": plan_ops, "repo": common.repo_state(),
                    "how_to_replay": "./check C20 --replay <this file>  (builds a harness holding only these ops from /repo's current tree, "
                                     "runs the plan in a fresh worker; every operand derives from the op's seed)"}, f, indent=1)
@@ -552,7 +595,7 @@ def replay(path, quiet=False):
             log("replay: ops no longer exist on this tree: %s" % sorted(missing))
         return 2
     want = plan["violation"]
-    e = reproduces(h.exe, plan["plan"], want["class"], want["op"], valgrind)
+    e = reproduces(h.exe, plan["plan"], want["class"], want["op"], valgrind, plan.get("environment"))
     if e:
         if not quiet:
             log("replay: reproduced %s in %s (fault %s)" % (e["cls"], want["op"], e.get("fault")))
@@ -604,10 +647,13 @@ def main(tier, seed):
     bigrams = set()
     evaluations = 0
 
-    def execute(label, exe, runs, valgrind=False, build="san", fresh=False):
+    def execute(label, exe, runs, valgrind=False, build="san", fresh=False, env=None):
         nonlocal evaluations
         t = time.time()
-        ev, st, rs = run_fresh(exe, runs) if fresh else run_parallel(exe, runs, valgrind=valgrind)
+        ev, st, rs = run_fresh(exe, runs) if fresh else run_parallel(exe, runs, valgrind=valgrind, env=env)
+        if env is not None:
+            for e in ev:
+                e["env"] = env
         by_run = {r[0]: r[1] for r in runs}
         for e in ev:
             if e["kind"] == "infra":
@@ -623,6 +669,8 @@ def main(tier, seed):
                 continue
             o = ops_[oi]
             n = r["n"]
+            if "rep" in o:
+                continue
             if o["fault"] == "alloceach":
                 for k in range(n):
                     distinct.add((o["name"], "alloc", k))
@@ -664,7 +712,7 @@ def main(tier, seed):
         o = enum_runs[rid][oi]
         alloc_counts[o["name"]] = max(alloc_counts.get(o["name"], 0), r["n"])
     # 2. exhaustive selector sweeps (fault-free) + the same under allocation faults for a sample
-    sweep = gen_sweeps(hs, cat)
+    sweep = gen_sweeps(hs, cat, thorough, Rng(common.run_seed(seed, 9)))
     execute("sweeps", hs.exe, chunked(sweep, 100000))
     # 3. fault-free batch on its own (so the relaxation under faults can hide nothing)
     ff = gen_enumeration(hs, rng, draws=(300 if thorough else 24), faults=False)
@@ -675,6 +723,14 @@ def main(tier, seed):
     nplans = int(os.environ.get("VERIF_C20_PLANS", "200000" if thorough else "3000"))
     hist = gen_history(hs, rng, nplans)
     execute("histories", hs.exe, [(300000 + i, ops_) for i, ops_ in enumerate(hist)])
+    # 3b. ambient configuration: the same fault-free batch in processes whose environment names a locale that
+    #     is not installed, and one that selects a UTF-8 C locale (the library must not care)
+    envb = gen_enumeration(hs, rng, draws=1, faults=False)
+    for label_, env_ in (("env:LANG=missing", {"LANG": "xx_XX.UTF-8", "LC_CTYPE": "yy_YY.ISO-8859-15"}), ("env:LC_ALL=C.UTF-8", {"LC_ALL": "C.UTF-8"})):
+        execute(label_, hs.exe, chunked(envb, 270000, size=512), env=env_)
+    # 4a. endurance: the same call tens of thousands of times in one process
+    endu = gen_endurance(hs, rng, thorough)
+    execute("endurance", hs.exe, [(500000 + i, ops_) for i, ops_ in enumerate(endu)])
     # 4b. cold starts: one fresh process per plan, first call already under an allocation failure
     cold = gen_cold(hs, rng, int(os.environ.get("VERIF_C20_COLD", "8000" if thorough else "1200")), alloc_counts)
     execute("cold-starts", hs.exe, [(600000 + i, ops_) for i, ops_ in enumerate(cold)], fresh=True)
@@ -724,13 +780,16 @@ def main(tier, seed):
             b, ops_, e = min(items, key=lambda it: it[2]["op"])
             valgrind = b == "plain-memcheck"
             exe = hp.exe if valgrind else hs.exe
-            plan_ops, used = minimise(exe, ops_, e, valgrind)
+            env_ = e.get("env")
+            plan_ops, used = minimise(exe, ops_, e, valgrind, env=env_)
             name = ops_[e["op"]]["name"]
-            e2 = reproduces(exe, plan_ops, cls, name, valgrind)
-            e3 = reproduces(exe, plan_ops, cls, name, valgrind)
+            e2 = reproduces(exe, plan_ops, cls, name, valgrind, env_)
+            e3 = reproduces(exe, plan_ops, cls, name, valgrind, env_)
             if not e2 or not e3:
                 log("INFRASTRUCTURE: violation %s in %s did not reproduce in two fresh worker processes" % (cls, name))
                 return 2
+            if env_ is not None:
+                e2["env"] = env_
             path = write_replay(seed, rep_n, b, plan_ops, e2, name)
             rep_n += 1
             log("  %s in %s fault=%s  (plan minimised to %d op(s) with %d re-executions)" % (cls, name, e2.get("fault"), len(plan_ops), used))
